@@ -1,9 +1,727 @@
-//! C17 — not implemented yet.
-use crate::ctx::Ctx;
+//! C17 — validation passes exactly the valid records and accounts for every invalid one.
+//!
+//! Requests (all run REAL pipelines / functions of ironbeam):
+//!
+//! `VALIDATE <skip|log|ff> <rec|kv> <mode|short> <c0|c1> <seq|par:N> <rows>`
+//!     rows  : `-` or comma-separated `id:SPEC` (rec) / `key=id:SPEC` (kv); SPEC = `V` (validate() = Ok) or
+//!             `E<digits>` (validate() = Err(list of the errors with these one-digit codes); `E` = Err(vec![]))
+//!     api   : `mode`  = validate_with_mode / validate_values_with_mode (collector Some iff c1)
+//!             `short` = validate_skip_invalid / validate_fail_fast / validate_values_skip_invalid (c0 only)
+//!     answer: `OK kept=<rows|-> log=<sorted entries record_id/E<digits>|->`  (entries as found in the shared
+//!             ErrorCollector after the run, sorted), or `PANIC at=<idx>:E<digits>` (sequential: the panic message
+//!             names the failing index and errors) / `PANIC` (parallel: which partition's panic is propagated is
+//!             scheduling-dependent, so only the fact is compared)
+//! `COMBINE <results>`   results: `-` or comma-separated `V` / `E<digits>`;  answer `OK` | `ERR <digits|->`
+//! `VPIPE <skip|log|ff> <c0|c1> <seq|par:N> <steps> <rows>`  keyed pipeline `from_vec → steps → collect`, steps a
+//!     `+`-separated list drawn from `inc` (map_values: shift every error code by one, mod 10), `heal`
+//!     (map_values: a record whose errors are all even becomes valid), `odd` (filter_values: keep records with an
+//!     odd id), `val` (validate_values_with_mode) — the block goes through the REAL planner, so a validator that
+//!     let itself be moved would change the answer. answer as for VALIDATE.
+//!
+//! Oracle (independent of the Lean model; computed from the request alone): output = the valid records in
+//! order; in log mode with a collector the multiset of logged error lists = the invalid records' error lists
+//! (hence one entry per invalid record and |output| + |entries| = |input|); nothing is logged otherwise;
+//! skip/log never fail; fail-fast fails iff some record is invalid; combine is Ok iff every part is Ok and
+//! otherwise carries the concatenation of all error lists in order.
 
-pub fn run(cx: &mut Ctx) {
-    cx.notes.push("C17: harness not implemented".to_string());
+use crate::ctx::{Ctx, Tier, guarded};
+use ironbeam::validation::{
+    ErrorCollector, Validate, ValidationError, ValidationMode, ValidationResult, combine_validations,
+};
+use ironbeam::node::Node;
+use ironbeam::{Pipeline, from_vec};
+use std::sync::atomic::{AtomicU32, Ordering};
+use std::sync::{Arc, Mutex};
+
+/// scheduling jitter inside `validate()` (0 = off): makes partitions reach the shared collector at uneven times
+static JITTER: AtomicU32 = AtomicU32::new(0);
+
+/// Table-driven record: carries its own validation verdict.
+#[derive(Clone, Debug, PartialEq, Eq)]
+pub struct Rec {
+    pub id: i64,
+    /// None = valid; Some(codes) = `Err(codes.map(err_of))` (possibly the empty list)
+    pub errs: Option<Vec<u8>>,
 }
 
-/// finite tables dumped from the running code (translator route); appended to Generated/Tables.lean
-pub fn tables(_out: &mut String) {}
+fn err_of(c: u8) -> ValidationError {
+    let e = if c % 2 == 0 { ValidationError::field(format!("f{c}"), format!("m{c}")) } else { ValidationError::new(format!("m{c}")) };
+    if c % 3 == 0 { e.with_code(format!("k{c}")) } else { e }
+}
+/// exact inverse of `err_of` on (field, message, code); anything else is `?`
+fn code_of(e: &ValidationError) -> char {
+    for c in 0u8..10 {
+        let w = err_of(c);
+        if w.field == e.field && w.message == e.message && w.code == e.code {
+            return (b'0' + c) as char;
+        }
+    }
+    '?'
+}
+/// inverse of `Display for ValidationError` on the ten table errors
+fn code_of_display(s: &str) -> char {
+    for c in 0u8..10 {
+        if err_of(c).to_string() == s {
+            return (b'0' + c) as char;
+        }
+    }
+    '?'
+}
+
+impl Validate for Rec {
+    fn validate(&self) -> ValidationResult {
+        let j = JITTER.load(Ordering::Relaxed);
+        if j != 0 {
+            let h = (self.id as u64).wrapping_mul(0x9E37_79B9_7F4A_7C15) >> 60;
+            for _ in 0..(h * j as u64) { std::hint::spin_loop(); }
+            if h % 4 == 0 { std::thread::yield_now(); }
+        }
+        match &self.errs {
+            None => Ok(()),
+            Some(cs) => Err(cs.iter().map(|c| err_of(*c)).collect()),
+        }
+    }
+}
+
+#[derive(Clone, Copy, PartialEq, Eq, Debug)]
+enum Mode { Skip, Log, Ff }
+impl Mode {
+    fn tok(self) -> &'static str { match self { Mode::Skip => "skip", Mode::Log => "log", Mode::Ff => "ff" } }
+    fn real(self) -> ValidationMode {
+        match self { Mode::Skip => ValidationMode::SkipInvalid, Mode::Log => ValidationMode::LogAndContinue, Mode::Ff => ValidationMode::FailFast }
+    }
+}
+const MODES: [Mode; 3] = [Mode::Skip, Mode::Log, Mode::Ff];
+
+#[derive(Clone, Copy, PartialEq, Eq, Debug)]
+enum Exec { Seq, Par(usize) }
+impl Exec {
+    fn tok(self) -> String { match self { Exec::Seq => "seq".into(), Exec::Par(n) => format!("par:{n}") } }
+}
+
+fn spec(errs: &Option<Vec<u8>>) -> String {
+    match errs {
+        None => "V".into(),
+        Some(cs) => format!("E{}", cs.iter().map(|c| (b'0' + c) as char).collect::<String>()),
+    }
+}
+fn enc_rec(r: &Rec) -> String { format!("{}:{}", r.id, spec(&r.errs)) }
+fn enc_kv(kv: &(i64, Rec)) -> String { format!("{}={}", kv.0, enc_rec(&kv.1)) }
+fn join_or_dash(v: Vec<String>) -> String { if v.is_empty() { "-".into() } else { v.join(",") } }
+
+/// what a run left behind, canonicalised
+struct Obs {
+    /// Ok(kept rows as tokens) or Err(panic message)
+    out: Result<Vec<String>, String>,
+    /// (record_id, error codes) in collector order
+    log: Vec<(String, String)>,
+}
+
+fn read_collector(c: &Arc<Mutex<ErrorCollector>>) -> Vec<(String, String)> {
+    // a panic while the lock is held would poison it; the entries are still there
+    let g = match c.lock() { Ok(g) => g, Err(p) => p.into_inner() };
+    let n = g.error_count();
+    let v: Vec<(String, String)> = g
+        .errors()
+        .iter()
+        .map(|re| (re.record_id.clone().unwrap_or_else(|| "none".into()), re.errors.iter().map(code_of).collect::<String>()))
+        .collect();
+    assert_eq!(n, v.len());
+    v
+}
+
+const THREADS: Option<usize> = Some(8);
+
+fn flatten_run<T>(r: Result<anyhow::Result<Vec<T>>, String>, enc: impl Fn(&T) -> String) -> Result<Vec<String>, String> {
+    match r {
+        Ok(Ok(v)) => Ok(v.iter().map(enc).collect()),
+        Ok(Err(e)) => Err(format!("ERR {e}")),
+        Err(p) => Err(p),
+    }
+}
+
+fn run_rec(mode: Mode, short: bool, coll: bool, exec: Exec, rows: &[Rec]) -> Obs {
+    let collector = Arc::new(Mutex::new(ErrorCollector::new()));
+    let p = Pipeline::default();
+    let src = from_vec(&p, rows.to_vec());
+    let v = if short {
+        match mode {
+            Mode::Skip => src.validate_skip_invalid(),
+            Mode::Ff => src.validate_fail_fast(),
+            Mode::Log => unreachable!(),
+        }
+    } else {
+        src.validate_with_mode(mode.real(), if coll { Some(Arc::clone(&collector)) } else { None })
+    };
+    let r = guarded(move || match exec {
+        Exec::Seq => v.collect_seq(),
+        Exec::Par(n) => v.collect_par(THREADS, Some(n)),
+    });
+    Obs { out: flatten_run(r, enc_rec), log: read_collector(&collector) }
+}
+
+fn run_kv(mode: Mode, short: bool, coll: bool, exec: Exec, rows: &[(i64, Rec)]) -> Obs {
+    let collector = Arc::new(Mutex::new(ErrorCollector::new()));
+    let p = Pipeline::default();
+    let src = from_vec(&p, rows.to_vec());
+    let v = if short {
+        match mode {
+            Mode::Skip => src.validate_values_skip_invalid(),
+            _ => unreachable!(),
+        }
+    } else {
+        src.validate_values_with_mode(mode.real(), if coll { Some(Arc::clone(&collector)) } else { None })
+    };
+    let r = guarded(move || match exec {
+        Exec::Seq => v.collect_seq(),
+        Exec::Par(n) => v.collect_par(THREADS, Some(n)),
+    });
+    Obs { out: flatten_run(r, enc_kv), log: read_collector(&collector) }
+}
+
+/// `Validation failed at <record|pair> <idx>: <e1>, <e2>` ↦ (idx, codes)
+fn parse_panic(msg: &str, keyed: bool) -> Option<(usize, String)> {
+    let pfx = if keyed { "Validation failed at pair " } else { "Validation failed at record " };
+    let rest = msg.strip_prefix(pfx)?;
+    let (idx, errs) = rest.split_once(": ")?;
+    let idx: usize = idx.parse().ok()?;
+    let codes: String = if errs.is_empty() { String::new() } else { errs.split(", ").map(code_of_display).collect() };
+    Some((idx, codes))
+}
+
+fn canon_answer(obs: &Obs, exec: Exec, keyed: bool) -> String {
+    let mut log: Vec<String> = obs.log.iter().map(|(id, cs)| format!("{id}/E{cs}")).collect();
+    log.sort();
+    match &obs.out {
+        Ok(kept) => format!("OK kept={} log={}", join_or_dash(kept.clone()), join_or_dash(log)),
+        Err(msg) if msg.starts_with("ERR ") => "ERR".to_string(),
+        Err(msg) => match (exec, parse_panic(msg, keyed)) {
+            (Exec::Seq, Some((i, cs))) => format!("PANIC at={i}:E{cs}"),
+            (Exec::Seq, None) => "PANIC unparsed".to_string(),
+            (Exec::Par(_), _) => "PANIC".to_string(),
+        },
+    }
+}
+
+/// The property's own statement on one observed run. `recs` = the records in input order (values for kv),
+/// `toks` = their row tokens.
+fn oracle(cx: &mut Ctx, i: usize, mode: Mode, coll: bool, keyed: bool, recs: &[&Rec], toks: &[String], obs: &Obs) {
+    let valid_toks: Vec<String> = recs.iter().zip(toks).filter(|(r, _)| r.errs.is_none()).map(|(_, t)| t.clone()).collect();
+    let mut invalid_errs: Vec<String> = recs.iter().filter_map(|r| r.errs.as_ref().map(|cs| cs.iter().map(|c| (b'0' + c) as char).collect())).collect();
+    invalid_errs.sort();
+    let any_invalid = !invalid_errs.is_empty();
+    match (&obs.out, mode) {
+        (Err(m), Mode::Skip | Mode::Log) => {
+            cx.oracle_fail(i, "skip-or-log-run-failed", format!("mode {} failed: {m}", mode.tok()));
+        }
+        (Err(m), Mode::Ff) => {
+            if !any_invalid {
+                cx.oracle_fail(i, "failfast-failed-without-invalid-record", format!("all records valid but the run failed: {m}"));
+            } else {
+                match parse_panic(m, keyed) {
+                    Some((_, cs)) if invalid_errs.contains(&cs) => {}
+                    _ => cx.oracle_fail(i, "failfast-message-not-an-invalid-record", format!("panic message {m:?} does not quote an invalid record's errors")),
+                }
+            }
+        }
+        (Ok(kept), _) => {
+            if mode == Mode::Ff && any_invalid {
+                cx.oracle_fail(i, "failfast-passed-with-invalid-record", format!("{} invalid records but the run returned {} rows", invalid_errs.len(), kept.len()));
+            } else if *kept != valid_toks {
+                cx.oracle_fail(i, "output-not-the-valid-records-in-order", format!("expected {valid_toks:?} got {kept:?}"));
+            }
+        }
+    }
+    let mut logged: Vec<String> = obs.log.iter().map(|x| x.1.clone()).collect();
+    logged.sort();
+    if mode == Mode::Log && coll {
+        if obs.out.is_ok() {
+            if logged != invalid_errs {
+                cx.oracle_fail(i, "collector-not-one-entry-per-invalid-record", format!("expected error lists {invalid_errs:?} got {logged:?}"));
+            }
+            if let Ok(k) = &obs.out {
+                if k.len() + obs.log.len() != recs.len() {
+                    cx.oracle_fail(i, "counts-do-not-add-up", format!("{} kept + {} logged != {} input", k.len(), obs.log.len(), recs.len()));
+                }
+            }
+        }
+    } else if !logged.is_empty() {
+        cx.oracle_fail(i, "logged-outside-log-mode", format!("mode {} coll={coll}: collector has {} entries", mode.tok(), logged.len()));
+    }
+}
+
+fn case_rec(cx: &mut Ctx, mode: Mode, short: bool, coll: bool, exec: Exec, rows: &[Rec]) {
+    let obs = run_rec(mode, short, coll, exec, rows);
+    let toks: Vec<String> = rows.iter().map(enc_rec).collect();
+    let req = format!("VALIDATE {} rec {} {} {} {}", mode.tok(), if short { "short" } else { "mode" }, if coll { "c1" } else { "c0" }, exec.tok(), join_or_dash(toks.clone()));
+    let nt = rows.iter().any(|r| r.errs.is_some()) && rows.iter().any(|r| r.errs.is_none());
+    let i = cx.case(req, canon_answer(&obs, exec, false), nt);
+    let recs: Vec<&Rec> = rows.iter().collect();
+    oracle(cx, i, mode, coll, false, &recs, &toks, &obs);
+    stats(cx, mode, false, exec, rows.len(), &obs);
+}
+
+fn case_kv(cx: &mut Ctx, mode: Mode, short: bool, coll: bool, exec: Exec, rows: &[(i64, Rec)]) {
+    let obs = run_kv(mode, short, coll, exec, rows);
+    let toks: Vec<String> = rows.iter().map(enc_kv).collect();
+    let req = format!("VALIDATE {} kv {} {} {} {}", mode.tok(), if short { "short" } else { "mode" }, if coll { "c1" } else { "c0" }, exec.tok(), join_or_dash(toks.clone()));
+    let nt = rows.iter().any(|r| r.1.errs.is_some()) && rows.iter().any(|r| r.1.errs.is_none());
+    let i = cx.case(req, canon_answer(&obs, exec, true), nt);
+    let recs: Vec<&Rec> = rows.iter().map(|r| &r.1).collect();
+    oracle(cx, i, mode, coll, true, &recs, &toks, &obs);
+    stats(cx, mode, true, exec, rows.len(), &obs);
+}
+
+fn stats(cx: &mut Ctx, mode: Mode, keyed: bool, exec: Exec, len: usize, obs: &Obs) {
+    cx.count(&format!("mode:{}", mode.tok()));
+    cx.count(if keyed { "shape:kv" } else { "shape:rec" });
+    cx.count(match exec { Exec::Seq => "exec:seq", Exec::Par(1) => "exec:par1", Exec::Par(n) if n >= len.max(1) => "exec:par>=len", Exec::Par(_) => "exec:par<len" });
+    cx.count(match len { 0 => "len:0", 1 => "len:1", 2..=6 => "len:2-6", 7..=30 => "len:7-30", _ => "len:31+" });
+    cx.count(if obs.out.is_ok() { "outcome:ok" } else { "outcome:panic" });
+    if !obs.log.is_empty() { cx.count("collector:nonempty"); }
+}
+
+/// every (mode, api, collector) combination the public API offers for one shape
+fn variants(keyed: bool) -> Vec<(Mode, bool, bool)> {
+    let mut v = vec![];
+    for m in MODES {
+        v.push((m, false, true));
+        v.push((m, false, false));
+    }
+    v.push((Mode::Skip, true, false));
+    if !keyed { v.push((Mode::Ff, true, false)); }
+    v
+}
+
+fn mk_rows(pattern: &[Option<Vec<u8>>]) -> Vec<Rec> {
+    pattern.iter().enumerate().map(|(i, e)| Rec { id: i as i64, errs: e.clone() }).collect()
+}
+fn key_of(id: i64) -> i64 { (id * 7 + 3) % 5 }
+fn mk_kv(rows: &[Rec]) -> Vec<(i64, Rec)> { rows.iter().map(|r| (key_of(r.id), r.clone())).collect() }
+
+fn all_execs(len: usize, upto: usize) -> Vec<Exec> {
+    let mut v = vec![Exec::Seq];
+    for n in 1..=upto { v.push(Exec::Par(n)); }
+    let _ = len;
+    v
+}
+fn some_execs(len: usize) -> Vec<Exec> {
+    let mut ns = vec![1usize, 2, 3, len.saturating_sub(1), len, len + 1, 64];
+    ns.retain(|n| *n >= 1);
+    ns.sort();
+    ns.dedup();
+    let mut v = vec![Exec::Seq];
+    v.extend(ns.into_iter().map(Exec::Par));
+    v
+}
+
+// ---------------------------------------------------------------- combine
+
+fn one_combine(cx: &mut Ctx, parts: &[Option<Vec<u8>>]) {
+    let input: Vec<ValidationResult> = parts
+        .iter()
+        .map(|p| match p { None => Ok(()), Some(cs) => Err(cs.iter().map(|c| err_of(*c)).collect()) })
+        .collect();
+    let r = guarded(move || combine_validations(input));
+    let real = match &r {
+        Ok(Ok(())) => "OK".to_string(),
+        Ok(Err(es)) => { let s: String = es.iter().map(code_of).collect(); format!("ERR {}", if s.is_empty() { "-".into() } else { s }) }
+        Err(_) => "PANIC".to_string(),
+    };
+    let req = format!("COMBINE {}", join_or_dash(parts.iter().map(spec).collect()));
+    let nt = parts.iter().any(Option::is_some) && parts.len() >= 2;
+    let i = cx.case(req, real.clone(), nt);
+    cx.count(if real == "OK" { "combine:ok" } else { "combine:err" });
+    // oracle
+    let all_ok = parts.iter().all(Option::is_none);
+    let want_errs: String = parts.iter().flatten().flat_map(|cs| cs.iter().map(|c| (b'0' + c) as char)).collect();
+    match &r {
+        Ok(Ok(())) => {
+            if !all_ok {
+                let sig = if want_errs.is_empty() { "combine-ok-although-a-part-failed-with-empty-error-list" } else { "combine-ok-although-a-part-failed" };
+                cx.oracle_fail(i, sig, format!("parts {:?} contain a failed part but combine returned Ok", parts.iter().map(spec).collect::<Vec<_>>()));
+            }
+        }
+        Ok(Err(es)) => {
+            let got: String = es.iter().map(code_of).collect();
+            if all_ok {
+                cx.oracle_fail(i, "combine-err-although-all-parts-ok", format!("got Err({got})"));
+            } else if got != want_errs {
+                cx.oracle_fail(i, "combine-errors-not-all-in-order", format!("expected {want_errs} got {got}"));
+            }
+        }
+        Err(m) => cx.oracle_fail(i, "combine-panicked", m.clone()),
+    }
+}
+
+// ---------------------------------------------------------------- planner pin (VPIPE)
+
+#[derive(Clone, Copy, PartialEq, Eq, Debug)]
+enum Step { Inc, Heal, Odd, Val }
+impl Step {
+    fn tok(self) -> &'static str { match self { Step::Inc => "inc", Step::Heal => "heal", Step::Odd => "odd", Step::Val => "val" } }
+}
+fn step_inc(r: &Rec) -> Rec { Rec { id: r.id, errs: r.errs.as_ref().map(|cs| cs.iter().map(|c| (c + 1) % 10).collect()) } }
+fn step_heal(r: &Rec) -> Rec {
+    match &r.errs {
+        Some(cs) if cs.iter().all(|c| c % 2 == 0) => Rec { id: r.id, errs: None },
+        _ => r.clone(),
+    }
+}
+fn step_odd(r: &Rec) -> bool { r.id % 2 != 0 }
+
+fn case_vpipe(cx: &mut Ctx, mode: Mode, coll: bool, exec: Exec, steps: &[Step], rows: &[(i64, Rec)]) {
+    let collector = Arc::new(Mutex::new(ErrorCollector::new()));
+    let p = Pipeline::default();
+    let mut c = from_vec(&p, rows.to_vec());
+    for s in steps {
+        c = match s {
+            Step::Inc => c.map_values(|r: &Rec| step_inc(r)),
+            Step::Heal => c.map_values(|r: &Rec| step_heal(r)),
+            Step::Odd => c.filter_values(|r: &Rec| step_odd(r)),
+            Step::Val => c.validate_values_with_mode(mode.real(), if coll { Some(Arc::clone(&collector)) } else { None }),
+        };
+    }
+    let r = guarded(move || match exec {
+        Exec::Seq => c.collect_seq(),
+        Exec::Par(n) => c.collect_par(THREADS, Some(n)),
+    });
+    let obs = Obs { out: flatten_run(r, enc_kv), log: read_collector(&collector) };
+    let toks: Vec<String> = rows.iter().map(enc_kv).collect();
+    let req = format!(
+        "VPIPE {} {} {} {} {}",
+        mode.tok(),
+        if coll { "c1" } else { "c0" },
+        exec.tok(),
+        steps.iter().map(|s| s.tok()).collect::<Vec<_>>().join("+"),
+        join_or_dash(toks)
+    );
+    // the panic index depends on what the earlier steps dropped; compare only the fact for VPIPE
+    let ans = match canon_answer(&obs, exec, true) {
+        a if a.starts_with("PANIC") => "PANIC".to_string(),
+        a => a,
+    };
+    let i = cx.case(req, ans, true);
+    cx.count("vpipe");
+    // oracle: the steps as written, record by record (every step is element-wise)
+    let mut cur: Vec<(i64, Rec)> = rows.to_vec();
+    let mut want_log: Vec<String> = vec![];
+    let mut want_fail = false;
+    for s in steps {
+        match s {
+            Step::Inc => cur = cur.iter().map(|(k, r)| (*k, step_inc(r))).collect(),
+            Step::Heal => cur = cur.iter().map(|(k, r)| (*k, step_heal(r))).collect(),
+            Step::Odd => cur.retain(|(_, r)| step_odd(r)),
+            Step::Val => {
+                for (_, r) in &cur {
+                    if let Some(cs) = &r.errs {
+                        if mode == Mode::Log && coll { want_log.push(cs.iter().map(|c| (b'0' + c) as char).collect()); }
+                        if mode == Mode::Ff { want_fail = true; }
+                    }
+                }
+                cur.retain(|(_, r)| r.errs.is_none());
+            }
+        }
+    }
+    want_log.sort();
+    let mut got_log: Vec<String> = obs.log.iter().map(|x| x.1.clone()).collect();
+    got_log.sort();
+    match &obs.out {
+        Ok(kept) => {
+            let want: Vec<String> = cur.iter().map(enc_kv).collect();
+            if want_fail {
+                cx.oracle_fail(i, "vpipe-failfast-passed-with-invalid-record", format!("returned {} rows", kept.len()));
+            } else if *kept != want {
+                cx.oracle_fail(i, "vpipe-output-differs-from-steps-as-written", format!("expected {want:?} got {kept:?}"));
+            } else if got_log != want_log {
+                cx.oracle_fail(i, "vpipe-collector-differs-from-steps-as-written", format!("expected {want_log:?} got {got_log:?}"));
+            }
+        }
+        Err(m) => {
+            if !want_fail {
+                cx.oracle_fail(i, "vpipe-run-failed", m.clone());
+            }
+        }
+    }
+}
+
+// ---------------------------------------------------------------- generators
+
+fn all_patterns(len: usize, alphabet: &[Option<Vec<u8>>]) -> Vec<Vec<Option<Vec<u8>>>> {
+    let mut out: Vec<Vec<Option<Vec<u8>>>> = vec![vec![]];
+    for _ in 0..len {
+        let mut next = vec![];
+        for p in &out {
+            for a in alphabet {
+                let mut q = p.clone();
+                q.push(a.clone());
+                next.push(q);
+            }
+        }
+        out = next;
+    }
+    out
+}
+
+/// errors of the invalid record at position i in the exhaustive block: distinct payloads per position,
+/// including the empty list and a two-element list
+fn pos_errs(i: usize) -> Vec<u8> {
+    match i % 4 {
+        0 => vec![i as u8 % 10],
+        1 => vec![(i as u8 + 3) % 10, i as u8 % 10],
+        2 => vec![],
+        _ => vec![9, (i as u8) % 10, 0],
+    }
+}
+
+fn random_errs(cx: &mut Ctx) -> Vec<u8> {
+    let n = match cx.rng.below(10) { 0 => 0, 1..=5 => 1, 6..=8 => 2, _ => 4 };
+    (0..n).map(|_| cx.rng.below(10) as u8).collect()
+}
+
+fn random_pattern(cx: &mut Ctx, len: usize) -> Vec<Option<Vec<u8>>> {
+    let kind = cx.rng.below(9);
+    let mut v: Vec<Option<Vec<u8>>> = vec![None; len];
+    let name = match kind {
+        0 => "pattern:none-invalid",
+        1 => { for x in v.iter_mut() { *x = Some(random_errs(cx)); } "pattern:all-invalid" }
+        2 => { if len > 0 { v[0] = Some(random_errs(cx)); } "pattern:first" }
+        3 => { if len > 0 { v[len - 1] = Some(random_errs(cx)); } "pattern:last" }
+        4 => {
+            // a run of invalid records straddling a chunk boundary of some partition count
+            if len >= 2 {
+                let n = 2 + cx.rng.below(len.min(8));
+                let chunk = len.div_ceil(n);
+                let b = chunk * (1 + cx.rng.below((len / chunk).max(1)));
+                let lo = b.saturating_sub(1 + cx.rng.below(3));
+                let hi = (b + 1 + cx.rng.below(3)).min(len);
+                for i in lo..hi { v[i] = Some(random_errs(cx)); }
+            }
+            "pattern:run-across-boundary"
+        }
+        5 => { for i in 0..len { if i % 2 == 0 { v[i] = Some(random_errs(cx)); } } "pattern:alternating" }
+        6 => { for x in v.iter_mut() { if cx.rng.chance(1, 10) { *x = Some(random_errs(cx)); } } "pattern:sparse" }
+        7 => { for x in v.iter_mut() { if cx.rng.chance(9, 10) { *x = Some(random_errs(cx)); } } "pattern:dense" }
+        _ => { for x in v.iter_mut() { if cx.rng.chance(1, 2) { *x = Some(random_errs(cx)); } } "pattern:half" }
+    };
+    cx.count(name);
+    v
+}
+
+pub fn run(cx: &mut Ctx) {
+    // ---- (1) corpus: design witnesses / minimised past failures
+    one_combine(cx, &[Some(vec![])]);                       // Err(vec![]) is a failed part
+    one_combine(cx, &[None, Some(vec![]), None]);
+    one_combine(cx, &[Some(vec![1]), None, Some(vec![2, 3])]);
+    {
+        // invalid record with an empty error list must still be dropped / logged / fail the run
+        let rows = mk_rows(&[None, Some(vec![]), None]);
+        for (m, short, coll) in variants(false) {
+            for e in [Exec::Seq, Exec::Par(2), Exec::Par(3)] { case_rec(cx, m, short, coll, e, &rows); }
+        }
+        // two invalid records that have the same partition-local index in a 2-partition run
+        let rows = mk_rows(&[None, Some(vec![1]), None, Some(vec![2])]);
+        for e in [Exec::Seq, Exec::Par(2), Exec::Par(4)] {
+            case_rec(cx, Mode::Log, false, true, e, &rows);
+            case_kv(cx, Mode::Log, false, true, e, &mk_kv(&rows));
+        }
+        // validator between a map and a filter on values: must stay where it was written
+        let kv = mk_kv(&mk_rows(&[Some(vec![2]), Some(vec![1]), None, Some(vec![4, 5]), Some(vec![3])]));
+        for m in MODES {
+            for e in [Exec::Seq, Exec::Par(2)] {
+                case_vpipe(cx, m, true, e, &[Step::Inc, Step::Val, Step::Odd], &kv);
+                case_vpipe(cx, m, true, e, &[Step::Heal, Step::Val, Step::Odd], &kv);
+                case_vpipe(cx, m, true, e, &[Step::Odd, Step::Val, Step::Heal], &kv);
+            }
+        }
+    }
+
+    // ---- (2) exhaustive small scope
+    // sizes of exhaustive blocks are fixed per tier (the search tier only enlarges the random block)
+    let maxlen = if cx.tier == Tier::Thorough { 7 } else { 6 };
+    let mut npat = 0usize;
+    for len in 0..=maxlen {
+        // validity patterns: bit i set = record i invalid, with position-dependent payload
+        for bits in 0u32..(1 << len) {
+            let pat: Vec<Option<Vec<u8>>> = (0..len).map(|i| if bits >> i & 1 == 1 { Some(pos_errs(i)) } else { None }).collect();
+            let rows = mk_rows(&pat);
+            let kv = mk_kv(&rows);
+            npat += 1;
+            for e in all_execs(len, maxlen + 1) {
+                for (m, short, coll) in variants(false) {
+                    // collector-less / short forms only sequentially and for two partition counts (they add nothing per n)
+                    if (short || !coll) && !matches!(e, Exec::Seq | Exec::Par(2) | Exec::Par(3)) { continue; }
+                    case_rec(cx, m, short, coll, e, &rows);
+                }
+                for (m, short, coll) in variants(true) {
+                    if (short || !coll) && !matches!(e, Exec::Seq | Exec::Par(2) | Exec::Par(3)) { continue; }
+                    case_kv(cx, m, short, coll, e, &kv);
+                }
+            }
+        }
+    }
+    cx.exhaustive_blocks.push(format!(
+        "VALIDATE: all {npat} valid/invalid patterns of 0..={maxlen} records (invalid payloads: 1, 2, 0 and 3 errors by position) x (sequential + partitions 1..={}) x 3 modes with collector x keyed/unkeyed; collector-less and convenience builders at seq, 2 and 3 partitions",
+        maxlen + 1
+    ));
+    let alpha: Vec<Option<Vec<u8>>> = vec![None, Some(vec![]), Some(vec![1]), Some(vec![2, 3])];
+    let cl = if cx.tier == Tier::Thorough { 5 } else { 4 };
+    let mut ncomb = 0usize;
+    for len in 0..=cl {
+        for p in all_patterns(len, &alpha) { one_combine(cx, &p); ncomb += 1; }
+    }
+    cx.exhaustive_blocks.push(format!("COMBINE: all {ncomb} lists of 0..={cl} results over {{Ok, Err[], Err[1], Err[2,3]}}"));
+    // planner pin: every arrangement of up to 3 value steps around one validator, on a fixed 6-row input
+    {
+        let kv = mk_kv(&mk_rows(&[Some(vec![2]), Some(vec![1]), None, Some(vec![4, 6]), Some(vec![3]), None]));
+        let others = [Step::Inc, Step::Heal, Step::Odd];
+        let mut nseq = 0usize;
+        let mut seqs: Vec<Vec<Step>> = vec![vec![]];
+        for _ in 0..3 {
+            let mut next = vec![];
+            for s in &seqs { for o in others { let mut t = s.clone(); t.push(o); next.push(t); } }
+            seqs.extend(next.iter().cloned());
+            seqs.sort_by_key(|s| s.iter().map(|x| x.tok()).collect::<Vec<_>>().join("+"));
+            seqs.dedup();
+        }
+        for s in &seqs {
+            for pos in 0..=s.len() {
+                let mut steps = s.clone();
+                steps.insert(pos, Step::Val);
+                nseq += 1;
+                for m in MODES {
+                    for e in [Exec::Seq, Exec::Par(3)] { case_vpipe(cx, m, true, e, &steps, &kv); }
+                }
+            }
+        }
+        cx.exhaustive_blocks.push(format!("VPIPE: all {nseq} placements of one validate_values among 0..=3 steps over {{map_values inc, map_values heal, filter_values odd}} x 3 modes x seq/3 partitions, through the real planner"));
+    }
+
+    // ---- (2b) contention block: many partitions pushing into the one collector at the same time
+    {
+        let len = 400usize;
+        let pat: Vec<Option<Vec<u8>>> = (0..len).map(|i| if i % 10 == 9 { None } else { Some(vec![(i % 10) as u8, (i / 10 % 10) as u8, (i / 100) as u8]) }).collect();
+        let rows = mk_rows(&pat);
+        let kv = mk_kv(&rows);
+        let reps = cx.budget(4, 25);
+        for rep in 0..reps {
+            JITTER.store(if rep % 2 == 0 { 0 } else { 40 }, Ordering::Relaxed);
+            for n in [8usize, 64, 400] {
+                case_rec(cx, Mode::Log, false, true, Exec::Par(n), &rows);
+                case_kv(cx, Mode::Log, false, true, Exec::Par(n), &kv);
+                cx.count("contention-runs");
+            }
+        }
+        JITTER.store(0, Ordering::Relaxed);
+    }
+
+    // ---- (3) random block
+    let rounds = cx.budget(300, 3000);
+    for round in 0..rounds {
+        JITTER.store(if round % 2 == 0 { 0 } else { 1 + cx.rng.below(60) as u32 }, Ordering::Relaxed);
+        let len = match cx.rng.below(10) { 0 => cx.rng.below(3), 1..=5 => 2 + cx.rng.below(14), _ => 10 + cx.rng.below(91) };
+        let pat = random_pattern(cx, len);
+        let mut rows = mk_rows(&pat);
+        // ids need not be positions
+        if cx.rng.chance(1, 3) { for r in rows.iter_mut() { r.id = cx.rng.range(-50, 50); } }
+        let keyed = cx.rng.chance(1, 2);
+        let kv: Vec<(i64, Rec)> = rows.iter().map(|r| (cx.rng.range(0, 4), r.clone())).collect();
+        let vs = variants(keyed);
+        for e in some_execs(len) {
+            // log mode with collector on every partition count; one further variant per count
+            let extra = *cx.rng.pick(&vs);
+            for (m, short, coll) in [(Mode::Log, false, true), extra] {
+                if keyed { case_kv(cx, m, short, coll, e, &kv); } else { case_rec(cx, m, short, coll, e, &rows); }
+            }
+        }
+        // fail-fast on the same input, sequential + every partition count of the family + a random one
+        let n = 1 + cx.rng.below(len + 2);
+        let mut ff_execs = some_execs(len);
+        ff_execs.push(Exec::Par(n));
+        for e in ff_execs {
+            if keyed { case_kv(cx, Mode::Ff, false, true, e, &kv); } else { case_rec(cx, Mode::Ff, false, true, e, &rows); }
+        }
+        // combine over the same verdicts
+        one_combine(cx, &pat[..pat.len().min(12)]);
+        // a random value block with one or two validators, through the planner
+        if cx.rng.chance(1, 2) {
+            let k = 1 + cx.rng.below(5);
+            let mut steps: Vec<Step> = (0..k).map(|_| *cx.rng.pick(&[Step::Inc, Step::Heal, Step::Odd, Step::Val])).collect();
+            if !steps.contains(&Step::Val) { let p = cx.rng.below(steps.len() + 1); steps.insert(p, Step::Val); }
+            let m = *cx.rng.pick(&MODES);
+            let e = if cx.rng.chance(1, 2) { Exec::Seq } else { Exec::Par(1 + cx.rng.below(len + 2)) };
+            let short_kv: Vec<(i64, Rec)> = kv.iter().take(20).cloned().collect();
+            case_vpipe(cx, m, true, e, &steps, &short_kv);
+        }
+    }
+    JITTER.store(0, Ordering::Relaxed);
+}
+
+// ---------------------------------------------------------------- tables (translator route)
+
+fn flags_of(p: &Pipeline) -> Vec<(bool, bool, bool, u8)> {
+    let (nodes, _) = p.snapshot();
+    let mut v = vec![];
+    for (_, n) in nodes {
+        if let Node::Stateless(ops) = n {
+            for op in ops {
+                v.push((op.key_preserving(), op.value_only(), op.reorder_safe_with_value_only(), op.cost_hint()));
+            }
+        }
+    }
+    v
+}
+
+/// Capability flags of the operator installed by every validation builder, read from a real pipeline graph.
+pub fn tables(out: &mut String) {
+    let mut rows: Vec<(String, (bool, bool, bool, u8))> = vec![];
+    let mut add = |name: &str, p: &Pipeline| {
+        let f = flags_of(p);
+        assert_eq!(f.len(), 1, "builder {name} must install exactly one stateless op");
+        rows.push((name.to_string(), f[0]));
+    };
+    let mk = || { let p = Pipeline::default(); let c = from_vec(&p, vec![Rec { id: 0, errs: None }]); (p, c) };
+    let mkv = || { let p = Pipeline::default(); let c = from_vec(&p, vec![(0i64, Rec { id: 0, errs: None })]); (p, c) };
+    for m in MODES {
+        for coll in [false, true] {
+            let c0 = if coll { Some(Arc::new(Mutex::new(ErrorCollector::new()))) } else { None };
+            let (p, c) = mk();
+            let _ = c.validate_with_mode(m.real(), c0.clone());
+            add(&format!("validate_with_mode:{}:{}", m.tok(), if coll { "c1" } else { "c0" }), &p);
+            let (p, c) = mkv();
+            let _ = c.validate_values_with_mode(m.real(), c0);
+            add(&format!("validate_values_with_mode:{}:{}", m.tok(), if coll { "c1" } else { "c0" }), &p);
+        }
+    }
+    let (p, c) = mk();
+    let _ = c.validate_skip_invalid();
+    add("validate_skip_invalid", &p);
+    let (p, c) = mk();
+    let _ = c.validate_fail_fast();
+    add("validate_fail_fast", &p);
+    let (p, c) = mkv();
+    let _ = c.validate_values_skip_invalid();
+    add("validate_values_skip_invalid", &p);
+
+    out.push_str("/-- C17: (builder, key_preserving, value_only, reorder_safe_with_value_only, cost_hint) of the operator each\n    validation builder installs, read from `Pipeline::snapshot()` of a real graph. -/\n");
+    out.push_str("def validateOpFlags : List (String × Bool × Bool × Bool × Nat) := [\n");
+    let n = rows.len();
+    for (i, (name, (kp, vo, rs, cost))) in rows.iter().enumerate() {
+        out.push_str(&format!("  (\"{name}\", {kp}, {vo}, {rs}, {cost}){}\n", if i + 1 < n { "," } else { "" }));
+    }
+    out.push_str("]\n\n");
+
+    // the two value-only steps the VPIPE requests put around a validator
+    let p = Pipeline::default();
+    let _ = from_vec(&p, vec![(0i64, 0i64)]).map_values(|v: &i64| *v);
+    let mv = flags_of(&p);
+    let p = Pipeline::default();
+    let _ = from_vec(&p, vec![(0i64, 0i64)]).filter_values(|_: &i64| true);
+    let fv = flags_of(&p);
+    assert!(mv.len() == 1 && fv.len() == 1);
+    out.push_str("/-- C17: flags of `map_values` / `filter_values` (the steps placed around validators in `VPIPE`) -/\n");
+    out.push_str("def valueStepFlags : List (String × Bool × Bool × Bool × Nat) := [\n");
+    out.push_str(&format!("  (\"map_values\", {}, {}, {}, {}),\n", mv[0].0, mv[0].1, mv[0].2, mv[0].3));
+    out.push_str(&format!("  (\"filter_values\", {}, {}, {}, {})\n", fv[0].0, fv[0].1, fv[0].2, fv[0].3));
+    out.push_str("]\n\n");
+}
